@@ -13,7 +13,7 @@ ALPHAS = ["1", "1", "1", "0", "1/4", "1/2", "3/4"]
 # sha256 of the definitions (comments and blank lines stripped) of lean/FairModel/Generated/CorrRemoverSrc.lean as lifted
 # from the pinned tree: while it matches, lifted-model-vs-oracle disagreements are bugs of this machinery (exit 2);
 # after a source edit that changed the lifted text they are a broken tie (exit 1).
-PINNED_SRC_SHA256 = "8b64c004adb56dd4bb5402c5dbf50037c769339f20e8207e76bcc414ba1b21f5"
+PINNED_SRC_SHA256 = "1870ff372778be5cada0e9ab5e15d16641bbc552caa5d4f2d642a663d1d16843"
 _SRC_STATE = {}
 
 
@@ -356,6 +356,12 @@ class CHECK(Check):
         # the model re-built from the lifted source text (Generated/CorrRemoverSrc.lean), exact least-squares beta
         ls += [f"corrsrc.means {X} {ids}", f"corrsrc.split {sp.m} {ids}", f"corrsrc.normal {X} {ids} {eb}",
                f"corrsrc.transform {X} {ids} {em} {eb} {proto.rat(sp.alpha)}"]
+        # `sensitive` of _split_X through the lifted _create_lookup table: by name (DataFrame) or by position (ndarray)
+        if case["container"] == "dataframe":
+            code = lambda nm: NAMES.index(nm) + 1 if nm in NAMES else 100 + sum(map(ord, nm))  # noqa: E731
+            ls.append(f"corrsrc.lookup df {proto.lst([code(c) for c in case['names']])} {proto.lst([code(case['names'][i]) for i in case['ids']])}")
+        else:
+            ls.append(f"corrsrc.lookup arr {sp.m} {ids}")
         # theorem output_independent_of_solution on the driver: two exact solutions, same alpha = 1 output
         ls += [f"corr.transform {X} {ids} {em} {eb} 1", f"corr.transform {X} {ids} {em} {proto.mat(sp.beta_alt)} 1"]
         if "exc" in o or "crash" in o or not self._usable(o, sp):
@@ -383,9 +389,9 @@ class CHECK(Check):
         tol2 = REL_TOL * sp.scale ** 2 * sp.n
         # ---- model vs oracle (exact) ------------------------------------------------
         if mo is not None:
-            if len(mo) < 11 or "bad-op" in mo[:5] or "bad-op" in mo[9:11]:
-                return [Problem("harness", f"driver rejected a valid case: {mo[:11]}")]
-            if mo[9] != mo[10] or proto.p_mat(mo[9]) != to_rows(sp.R1, sp.n):
+            if len(mo) < 12 or "bad-op" in mo[:5] or "bad-op" in mo[10:12]:
+                return [Problem("harness", f"driver rejected a valid case: {mo[:12]}")]
+            if mo[10] != mo[11] or proto.p_mat(mo[10]) != to_rows(sp.R1, sp.n):
                 probs.append(Problem("harness", "two exact least-squares solutions give different alpha=1 outputs in the model "
                                      "(theorem `output_independent_of_solution`)"))
             if proto.p_list(mo[0]) != sp.smean:
@@ -399,8 +405,8 @@ class CHECK(Check):
             if proto.p_mat(mo[4]) != to_rows(sp.out, sp.n):
                 probs.append(Problem("harness", "model transform with exact beta differs from the exact projection residual"))
             # the lifted model against the same oracle
-            if "bad-op" in mo[5:9]:
-                probs.append(model_problem(f"the model re-built from the lifted source rejects a valid case: {mo[5:9]}"))
+            if "bad-op" in mo[5:10]:
+                probs.append(model_problem(f"the model re-built from the lifted source rejects a valid case: {mo[5:10]}"))
             elif proto.p_list(mo[5]) != sp.smean:
                 probs.append(model_problem(f"lifted fit stores mean {mo[5]}, per-column means are {[str(v) for v in sp.smean]}"))
             elif [int(t) for t in proto.p_list(mo[6])] != sp.ns:
@@ -409,6 +415,8 @@ class CHECK(Check):
                 probs.append(model_problem(f"the exact least-squares beta does not solve the problem lstsq is called with in the source: {mo[7]}"))
             elif proto.p_mat(mo[8]) != to_rows(sp.out, sp.n):
                 probs.append(model_problem("lifted transform with the exact beta differs from alpha*residual + (1-alpha)*original"))
+            if mo[9] == "bad-op" or [int(t) for t in proto.p_list(mo[9])] != list(case["ids"]):
+                probs.append(model_problem(f"the lifted _create_lookup / _split_X resolve the sensitive ids to {mo[9]}, their positions are {case['ids']}"))
         # ---- implementation vs property oracle ---------------------------------------
         if "crash" in o:
             return probs + [Problem("correspondence", f"adapter crashed: {o}", "impl-total")]
@@ -473,45 +481,45 @@ class CHECK(Check):
                 probs.append(Problem("correspondence", f"fitted state has unexpected shape: mean {o.get('mean_shape')}, beta {np.shape(o.get('beta'))}",
                                      "C15.fitted_state"))
                 return probs
-            if len(mo) != 18 or "bad-op" in mo[11:15]:
-                return probs + [Problem("harness", f"driver rejected the fitted state: {mo[11:]}")]
-            if "bad-op" in mo[15:18] or "bad-op" in mo[5:9]:
-                return probs + [model_problem(f"the model re-built from the lifted source rejects the fitted state: {mo[15:]}")]
+            if len(mo) != 19 or "bad-op" in mo[12:16]:
+                return probs + [Problem("harness", f"driver rejected the fitted state: {mo[12:]}")]
+            if "bad-op" in mo[16:19] or "bad-op" in mo[5:10]:
+                return probs + [model_problem(f"the model re-built from the lifted source rejects the fitted state: {mo[16:]}")]
             dm = max(abs(a - float(b)) for a, b in zip(o["mean"], sp.smean))
             mean_ok = dm <= tol
             if not mean_ok:
                 probs.append(Problem("correspondence", f"sensitive_mean_ {o['mean']} (shape {o['mean_shape']}) is not the vector of column means "
                                      f"{[float(v) for v in sp.smean]}", "C15.fitMean"))
             bscale = max(1.0, max(abs(v) for r in o["beta"] for v in r))
-            nres = max([abs(float(v)) for r in proto.p_mat(mo[11]) for v in r] + [0.0])
+            nres = max([abs(float(v)) for r in proto.p_mat(mo[12]) for v in r] + [0.0])
             lstsq_ok = nres <= tol2 * bscale
             if not lstsq_ok:
                 probs.append(Problem("correspondence", f"fitted beta_ violates the normal equations of (S - sensitive_mean_) by {nres:.3g} "
                                      "(hypothesis isLstsq of the theorems)", "C15.isLstsq"))
-            d = maxdiff(ft, proto.p_mat(mo[12]))
+            d = maxdiff(ft, proto.p_mat(mo[13]))
             if d is None or d > tol * bscale:
                 probs.append(Problem("correspondence", f"fit_transform differs from the model's transform(mean_, beta_, alpha) by {d}",
                                      "C15.transform_entry"))
-            d = maxdiff(o["new"], proto.p_mat(mo[14]))
+            d = maxdiff(o["new"], proto.p_mat(mo[15]))
             if d is None or d > tol * bscale:
                 probs.append(Problem("correspondence", f"transform(new) differs from the model's transform(mean_, beta_, alpha) by {d}",
                                      "C15.transform_new_data"))
             # the lifted model with the fitted state: normal equations of the operands lstsq is called with, transform of the
             # training batch and of new data
-            nres_s = max([abs(float(v)) for r in proto.p_mat(mo[15]) for v in r] + [0.0])
+            nres_s = max([abs(float(v)) for r in proto.p_mat(mo[16]) for v in r] + [0.0])
             if nres_s > tol2 * bscale and lstsq_ok:
                 probs.append(Problem("correspondence", f"fitted beta_ violates the normal equations of the lstsq operands lifted from the source by {nres_s:.3g}",
                                      "C15.src_uncorrelated"))
-            d = maxdiff(ft, proto.p_mat(mo[16]))
+            d = maxdiff(ft, proto.p_mat(mo[17]))
             if d is None or d > tol * bscale:
                 probs.append(Problem("correspondence", f"fit_transform differs from the transform lifted from the source by {d}", "C15.src_alpha_blend"))
-            d = maxdiff(o["new"], proto.p_mat(mo[17]))
+            d = maxdiff(o["new"], proto.p_mat(mo[18]))
             if d is None or d > tol * bscale:
                 probs.append(Problem("correspondence", f"transform(new) differs from the transform lifted from the source by {d}",
                                      "C15.src_transform_new_data"))
             if mean_ok and lstsq_ok:
                 # theorem cov_alpha instance on the model: cov = (1 - alpha) * cov(Z, S) up to the lstsq residual
-                cm = proto.p_mat(mo[13])
+                cm = proto.p_mat(mo[14])
                 for j in range(sp.mz):
                     for k in range(sp.ms):
                         want = (1 - sp.alpha) * cov_num(sp.Z[j], sp.S[k]) / (sp.n - 1)
